@@ -23,6 +23,9 @@ class ParkPolicy:
     particular yield point for as long as any other thread can run.
       'cancel': the dispatcher inside _check_for_answers, parked in Timer.cancel() (event.set)
       'start' : a retry timer thread inside send_packet, parked in Timer.start() (thread.start)
+      'sent'  : the sending thread (application or retry timer) parked where it gives up the send
+                lock, i.e. after the link has taken the packet and before send_packet returns --
+                a device that answers at once is heard by the dispatcher in between
     Otherwise lowest thread id first; time advances only when nothing can run (strict)."""
 
     def __init__(self, which):
@@ -34,6 +37,9 @@ class ParkPolicy:
             return False
         if self.which == 'cancel':
             return r.name.startswith('_IncomingPacketHandler') and op.kind == 'event.set'
+        if self.which == 'sent':
+            return (not r.name.startswith('_IncomingPacketHandler') and
+                    op.kind in ('lock.release', 'rlock.release') and getattr(r, 'sent_mark', False))
         return r.name.startswith('Timer') and op.kind == 'thread.start'
 
     def choose(self, sched, runnable, timed):
@@ -103,6 +109,15 @@ def execute(sc, mutant=None):
                 return
             if kw['e'] == 'up':
                 ev.append({'e': 'tx', 'req': kw['data'][0], 'sess': kw['session'], 't': kw['t'], 'strict': strict})
+                ncopy = st.setdefault('copies', {})
+                ncopy[kw['data'][0]] = ncopy.get(kw['data'][0], 0) + 1
+                if ncopy[kw['data'][0]] >= st.get('auto', {}).get(kw['data'][0], 1 << 30) and dev.link is not None:
+                    # a device that answers every copy at once: the reply is in the link's queue
+                    # before link.send_packet() has returned to the library
+                    dev.emit(sd.reply(PORT, 0, bytes(kw['data'][1:]) + b'\x09'))
+                    me = s.current() if hasattr(s, 'current') else None
+                    if me is not None:
+                        me.sent_mark = True
             elif kw['e'] in ('up_closed', 'up_stale'):
                 # handed to a link object that is already closed: a closed driver transmits nothing
                 # (RadioDriver leaves it in the dead out_queue, UsbDriver returns, SimDriver drops)
@@ -124,7 +139,7 @@ def execute(sc, mutant=None):
                     if cf.link is None:
                         nopen[0] += 1
                         cf.open_link('sim://0/%d' % nopen[0])
-                elif k == 'send':
+                elif k in ('send', 'sendq', 'sendq2'):
                     p = op[1]
                     # at most one request per pattern and session (assumption of the property check)
                     if cf.link is None or (dev.session, p) in st.setdefault('sent', set()):
@@ -132,6 +147,8 @@ def execute(sc, mutant=None):
                     st['sent'].add((dev.session, p))
                     st['nreq'] += 1
                     r = st['nreq']
+                    if k != 'send':      # answered at once from the first / from the second copy on
+                        st.setdefault('auto', {})[r] = 1 if k == 'sendq' else 2
                     ev.append({'e': 'send', 'req': r, 'sess': dev.session, 'pat': [HDR] + list(PATS[p]),
                                'tmo': int(round(TMO[p] * 1000))})
                     pk = CRTPPacket()
@@ -177,7 +194,7 @@ def gen_scenario(rng, reliable=False):
     for _ in range(n):
         r = rng.random()
         if r < 0.30:
-            ops.append(('send', rng.choice([1, 2, 3])))
+            ops.append((rng.choice(['send', 'send', 'sendq', 'sendq2']), rng.choice([1, 2, 3])))
         elif r < 0.55:
             ops.append(('inject', rng.choice(PACKETS)))
         elif r < 0.80:
@@ -234,6 +251,16 @@ def systematic():
                             ('send', p), ('sleep', 1.0)], 'reliable': False, 'policy': ('park', 'cancel')})
         out.append({'ops': [('open',), ('send', p), ('sleep', TMO[p]), ('lerr0',), ('open',), ('send', p), ('sleep', 0.7)],
                     'reliable': False, 'policy': ('park', 'start')})
+    # (c) a device that answers at once: the reply is handled while the sending thread is still
+    #     inside send_packet (first transmission and retransmission)
+    for p in (1, 2, 3):
+        for k in ('sendq', 'sendq2'):
+            out.append({'ops': [('open',), (k, p), ('sleep', 1.0)], 'reliable': False, 'policy': ('park', 'sent')})
+            out.append({'ops': [('open',), (k, p), (k, 2 if p != 2 else 3), ('sleep', 1.0)], 'reliable': False,
+                        'policy': ('park', 'sent')})
+            for seed in range(6):
+                out.append({'ops': [('open',), (k, p), ('sleep', 1.0)], 'reliable': False,
+                            'policy': (['pct0', 'random0'][seed % 2], seed)})
     for seed in range(40):
         for kind in ('pct0', 'random0'):
             out.append({'ops': race_a, 'reliable': False, 'policy': (kind, seed)})
@@ -259,6 +286,12 @@ def _send_packet_variant(variant):
                         pattern = (pk.header,) + expected_reply
                         t = Timer(timeout, lambda: cf._no_answer_do_retry(pk, pattern, timeout))
                         t.request = pk
+                        if variant == 'register_after_send':
+                            link.send_packet(pk)
+                            cf.packet_sent.call(pk)
+                            pats[pattern] = t
+                            t.start()
+                            return
                         pats[pattern] = t
                         t.start()
                     elif resend:
@@ -317,7 +350,7 @@ def _send_packet_variant(variant):
 
 MUTANTS = {k: _send_packet_variant(k) for k in
            ('retry_on_reliable', 'no_identity', 'no_rearm', 'default_timeout', 'double_arm',
-            'resend_after_answer', 'cancel_shortest', 'reread_link', 'reread_patterns')}
+            'resend_after_answer', 'cancel_shortest', 'reread_link', 'reread_patterns', 'register_after_send')}
 
 
 def _mut_stale_patterns(cf):
@@ -572,7 +605,7 @@ def main(tier, seed, replay=None):
     sub = systematic()[::2] + [gen_scenario(random.Random(seed + 7 + i), reliable=(i % 5 == 0)) for i in range(200)]
     races = [sc for sc in systematic() if sc['policy'][0] == 'park']
     for name in sorted(MUTANTS):
-        mt = run_scenarios(races if name in ('reread_link', 'reread_patterns') else sub, mutant=name)
+        mt = run_scenarios(races if name in ('reread_link', 'reread_patterns', 'register_after_send') else sub, mutant=name)
         for i, t in enumerate(mt):
             t['id'] = i + 1
         o2 = common.Outcome('C10', tier, seed)
